@@ -30,8 +30,14 @@
      fix: an unreadable or corrupt preprocessor cache entry no longer fails the compilation   (S5)
      fix: count a cache read error that falls back to compiling in cache_read_errors ...      (S15)
      fix: a compiler path that cannot be stat'ed is an unsupported compiler, not a server panic
+   A PANIC inside `get_cached_or_compile` (a storage call or sccache's own code on the way to spawning a process
+   panics: [PFPanic], [GPanic], [WPanic] on the preprocessor-cache puts, [o_pp_panics], [o_c_panics]) is caught by
+   `catch_unwind` in start_compile_task: the request ends in the error class (cache_errors) and the client is told
+   "encountered fatal error".  The deferred result put is awaited AFTER that region; modelled after
+     fix: a panicking cache write is counted as a cache write error ...
+   a [WPanic] there behaves like any failed write.
    Not modelled: distributed compilation (`dist_client` is `None`), the `extra_hash_files`, spawn failures
-   of the compiler process, panics inside `get_cached_or_compile`, LRU eviction (Model/Lru.v), durations. *)
+   of the compiler process, LRU eviction (Model/Lru.v), durations. *)
 From Coq Require Import List NArith Bool.
 From Sccache Require Import Base.Sx Model.Stats.
 Import ListNotations.
@@ -91,7 +97,11 @@ Record oracle := {
   o_c_stderr : bytes;
   o_c_outputs : outputs;        (* what a successful compilation writes *)
   o_c_writes : bool;            (* ... and whether it really does (exit 0 without the object file otherwise) *)
-  o_cacheable : bool            (* `Cacheable::Yes` from generate_compile_commands *)
+  o_cacheable : bool;           (* `Cacheable::Yes` from generate_compile_commands *)
+  (* NOT properties of the compiler but of sccache's own code on the way to running it: an internal fault
+     (an unwrap, a poisoned lock, ...) that makes the task PANIC before the process is spawned *)
+  o_pp_panics : bool;
+  o_c_panics : bool
 }.
 
 (* outcome of `Storage::get_preprocessor_cache_entry` + read_to_end + `PreprocessorCacheEntry::read` *)
@@ -101,14 +111,16 @@ Inductive ppget_fault :=
 | PFErr                         (* the storage call returns Err *)
 | PFGarbage                     (* bytes with a wrong format byte: Error::UnknownFormat *)
 | PFTruncated                   (* a proper prefix of an entry: bincode error *)
-| PFEmpty.                      (* zero bytes: decodes to an entry without results *)
+| PFEmpty                       (* zero bytes: decodes to an entry without results *)
+| PFPanic.                      (* the storage call panics (a bug in the backend) *)
 
 (* outcome of a `Storage::put` / `put_preprocessor_cache_entry` *)
 Inductive put_fault :=
 | WNone                         (* performed (fails all the same if the cache is read-only) *)
 | WErr                          (* Err (I/O error, directory unwritable or removed) *)
 | WTooLarge                     (* Err(LruError::FileTooLarge): tiny size limit *)
-| WReadOnly.                    (* Err: `ReadOnlyStorage` / `CacheMode::ReadOnly` refusal *)
+| WReadOnly                     (* Err: `ReadOnlyStorage` / `CacheMode::ReadOnly` refusal *)
+| WPanic.                       (* the storage call panics *)
 
 (* outcome of `Storage::get` (+ the extraction that follows a hit) *)
 Inductive get_fault :=
@@ -119,7 +131,8 @@ Inductive get_fault :=
 | GGarbage                      (* entry bytes are not a zip archive: `CacheRead::from` fails, i.e. Err *)
 | GTruncated                    (* entry cut short: likewise *)
 | GBadObj                       (* Hit, but an object member does not decompress: DecompressionFailure *)
-| GNoObj.                       (* Hit, but a required object member is missing: DecompressionFailure *)
+| GNoObj                        (* Hit, but a required object member is missing: DecompressionFailure *)
+| GPanic.                       (* the storage call panics *)
 
 Record faults := {
   f_ppget : ppget_fault;
@@ -191,51 +204,71 @@ Definition pp_read (f : faults) (pk : key) (st : cstate) : option (key * N) :=
               | Some PEmpty => None
               | None => None
               end
-  | PFAbsent | PFErr | PFGarbage | PFTruncated | PFEmpty => None
+  | PFAbsent | PFErr | PFGarbage | PFTruncated | PFEmpty | PFPanic => None
   end.
 
 Inductive hk_result :=
 | HKError                        (* Err(ProcessError) of the preprocessor -> CompileResult::Error *)
-| HKKey (k : key).
+| HKKey (k : key)
+| HKFatal.                       (* the task panicked: caught by `catch_unwind` in start_compile_task, turned into an
+                                    error, counted under cache_errors, answered with "encountered fatal error" *)
 
-(* returns the new state, the result, and how often the preprocessor ran *)
-Definition generate_hash_key (f : faults) (cc : cache_control) (o : oracle) (st : cstate)
-  : cstate * hk_result * N :=
-  (* the direct-mode prelude: only with CacheControl::Default *)
-  let prelude : cstate * option key :=
-    match o_pp_key o, cc with
-    | Some pk, CCDefault =>
+(* the direct-mode prelude: only with CacheControl::Default.  [inl]: new state and the key found, if any;
+   [inr]: a storage call panicked *)
+Definition hk_prelude (f : faults) (cc : cache_control) (o : oracle) (st : cstate) : option (cstate * option key) :=
+  match o_pp_key o, cc with
+  | Some pk, CCDefault =>
+      match f_ppget f with
+      | PFPanic => None
+      | _ =>
         match pp_read f pk st with
         | Some (k, m) =>
             if m =? o_manifest o then
               (* lookup_result_digest hit *)
               if o_upd o then
                 (* the entry is written back; if that fails the hit is not used *)
-                if put_ok (f_ppupd f) st
-                then ({| cs_res := cs_res st; cs_pp := kv_set pk (PGood k m) (cs_pp st); cs_ro := cs_ro st |}, Some k)
-                else (st, None)
-              else (st, Some k)
-            else (st, None)
-        | None => (st, None)
+                match f_ppupd f with
+                | WPanic => None
+                | _ =>
+                  if put_ok (f_ppupd f) st
+                  then Some ({| cs_res := cs_res st; cs_pp := kv_set pk (PGood k m) (cs_pp st); cs_ro := cs_ro st |}, Some k)
+                  else Some (st, None)
+                end
+              else Some (st, Some k)
+            else Some (st, None)
+        | None => Some (st, None)
         end
-    | _, _ => (st, None)
-    end in
-  match prelude with
-  | (st1, Some k) => (st1, HKKey k, 0)
-  | (st1, None) =>
-      (* run the preprocessor *)
-      if negb (o_pp_status o =? 0) then (st1, HKError, 1)
-      else
-        let st2 :=
-          match o_pp_key o with
-          | Some pk =>
-              if o_manifest_ok o && put_ok (f_ppput f) st1
-              then {| cs_res := cs_res st1; cs_pp := kv_set pk (PGood (o_key o) (o_manifest o)) (cs_pp st1);
-                      cs_ro := cs_ro st1 |}
-              else st1
-          | None => st1
-          end in
-        (st2, HKKey (o_key o), 1)
+      end
+  | _, _ => Some (st, None)
+  end.
+
+(* running the preprocessor and recording the preprocessor-cache entry *)
+Definition hk_preprocess (f : faults) (o : oracle) (st1 : cstate) : cstate * hk_result * N :=
+  if o_pp_panics o then (st1, HKFatal, 0)
+  else if negb (o_pp_status o =? 0) then (st1, HKError, 1)
+  else
+    match o_pp_key o with
+    | Some pk =>
+        if o_manifest_ok o then
+          match f_ppput f with
+          | WPanic => (st1, HKFatal, 1)
+          | _ =>
+            if put_ok (f_ppput f) st1
+            then ({| cs_res := cs_res st1; cs_pp := kv_set pk (PGood (o_key o) (o_manifest o)) (cs_pp st1);
+                     cs_ro := cs_ro st1 |}, HKKey (o_key o), 1)
+            else (st1, HKKey (o_key o), 1)
+          end
+        else (st1, HKKey (o_key o), 1)
+    | None => (st1, HKKey (o_key o), 1)
+    end.
+
+(* returns the new state, the result, and how often the preprocessor ran *)
+Definition generate_hash_key (f : faults) (cc : cache_control) (o : oracle) (st : cstate)
+  : cstate * hk_result * N :=
+  match hk_prelude f cc o st with
+  | None => (st, HKFatal, 0)
+  | Some (st1, Some k) => (st1, HKKey k, 0)
+  | Some (st1, None) => hk_preprocess f o st1
   end.
 
 (* ---------- the lookup of get_cached_or_compile ---------- *)
@@ -243,7 +276,7 @@ Definition generate_hash_key (f : faults) (cc : cache_control) (o : oracle) (st 
 Inductive lookup :=
 | LHit (so se : bytes) (outs : outputs)
 | LMiss (mt : miss_type)
-| LFatal.                        (* a non-DecompressionFailure extraction error is propagated *)
+| LFatal.                        (* a non-DecompressionFailure extraction error is propagated, or the lookup panicked *)
 
 Definition cache_lookup (f : faults) (cc : cache_control) (k : key) (st : cstate) : lookup :=
   match cc with
@@ -251,6 +284,7 @@ Definition cache_lookup (f : faults) (cc : cache_control) (k : key) (st : cstate
   | CCForceRecache => LMiss MForcedRecache
   | CCDefault =>
       match f_get f with
+      | GPanic => LFatal
       | GTimeout => LMiss MTimedOut
       | GErr | GGarbage | GTruncated => LMiss MReadError
       | GMiss => LMiss MNormal
@@ -279,7 +313,8 @@ Definition not_executed c : response :=
 Definition compile_and_store (f : faults) (o : oracle) (st1 : cstate) (k : key) (pp : N) (mt : miss_type)
   : cstate * response :=
   (* dist_or_local_compile: run the compiler *)
-  if negb (o_c_status o =? 0) then
+  if o_c_panics o then (st1, mk_response CFatal [] pp 0 OFatal)
+  else if negb (o_c_status o =? 0) then
     (st1, mk_response (CFinished (o_c_status o) (o_c_stdout o) (o_c_stderr o)) [] pp 1 OCompileFailed)
   else
     let written := if o_c_writes o then o_c_outputs o else [] in
@@ -304,6 +339,7 @@ Definition execute (f : faults) (cc : cache_control) (o : oracle) (st : cstate) 
   | (st1, HKError, pp) =>
       (* the preprocessor's status and stderr, its stdout dropped *)
       (st1, mk_response (CFinished (o_pp_status o) [] (o_pp_stderr o)) [] pp 0 OError)
+  | (st1, HKFatal, pp) => (st1, mk_response CFatal [] pp 0 OFatal)
   | (st1, HKKey k, pp) =>
       match cache_lookup f cc k st1 with
       | LFatal => (st1, mk_response CFatal [] pp 0 OFatal)
